@@ -283,7 +283,25 @@ def check_settings(prog: Program, rep, rule: str) -> None:
         rep.undecided(rule, cic.where, 'create_interface_config', 'shape not recognised: ' + '; '.join(problems)[:200])
     else:
         rep.ok(rule, cic.where, 'fresh defaults per call, caller overrides on top, returns Config(**config)')
-    calc_pi = prog.func(C.M_IF, 'Calculator.__post_init__')
+    calc_cls0 = prog.cls(C.M_IF, 'Calculator')
+    ctor_names = [n for n in ('__post_init__', '__init__') if n in calc_cls0.methods]
+    late = []
+    for mname, m in list(calc_cls0.methods.items()) + list(calc_cls0.setters.items()):
+        if mname in ('__post_init__', '__init__'):
+            continue
+        for c in ast.walk(m.node):
+            if isinstance(c, ast.Call) and norm(c.func) in ('create_interface_config', 'TrajectoryCalc'):
+                late.append((m, c))
+    if late:
+        m, c = late[0]
+        rep.fail(rule, prog.module(C.M_IF).path, c.lineno, m.qualname, 'config-not-at-creation',
+                 f'{m.qualname} builds the settings / the solver (`{norm(c)[:50]}`) after the Calculator was created: the '
+                 f'global default step and the caller\'s dict are read at first use, not at creation')
+    if not ctor_names:
+        if not late:
+            raise AnalysisError('Calculator has neither __post_init__ nor __init__ and builds its solver nowhere')
+        return
+    calc_pi = prog.func(C.M_IF, f'Calculator.{ctor_names[0]}')
     rep.saw(calc_pi)
     txt = [norm(n) for n in ast.walk(calc_pi.node) if isinstance(n, ast.Assign)]
     cic_calls = [c for c in ast.walk(calc_pi.node) if isinstance(c, ast.Call) and norm(c.func) == 'create_interface_config']
@@ -342,6 +360,11 @@ def check_global_step(prog: Program, rep, rule: str) -> None:
     ok_readers = {'get_global_max_calc_step_size', 'create_interface_config'}
     for mod, f, n in readers:
         fq = f.qualname if f else '<module>'
+        if mod is not tci and isinstance(n, ast.Name):
+            rep.fail(rule, mod.path, n.lineno, fq, f'frozen:{fq}',
+                     f'{fq} reads `{G}` through a name imported with `from ... import`: that is a copy made when the module '
+                     f'was imported, so the global default-step setter never reaches calculators created afterwards')
+            continue
         if fq in ok_readers:
             rep.ok(rule, mod.where(n), f'{fq} reads the global default step (creation time / getter)')
         else:
@@ -538,6 +561,55 @@ def _resolver_shape(prog: Program, rep) -> Dict[str, bool]:
     return shape
 
 
+def _str_pipeline(f: Func, start: str, result: Optional[str] = None):
+    """The chain of string operations the function applies to parameter ``start`` before look-up, as a Python
+    callable.  Recognised: strip/lstrip/rstrip/lower/upper/casefold/title/replace with literal arguments,
+    unicodedata.normalize(form, x), str(x).  Anything else applied to the string is an AnalysisError (the resolver
+    cannot be emulated)."""
+    import unicodedata
+    steps = []
+
+    def compile_expr(e, names):
+        if isinstance(e, ast.Name) and e.id in names:
+            return lambda env: env[e.id]
+        if isinstance(e, ast.Call) and isinstance(e.func, ast.Attribute) and e.func.attr in (
+                'strip', 'lstrip', 'rstrip', 'lower', 'upper', 'casefold', 'title', 'replace') \
+                and all(isinstance(a, ast.Constant) for a in e.args) and not e.keywords:
+            inner = compile_expr(e.func.value, names)
+            if inner is None:
+                return None
+            meth, args = e.func.attr, [a.value for a in e.args]
+            return lambda env: getattr(inner(env), meth)(*args)
+        if isinstance(e, ast.Call) and (dotted(e.func) or '') == 'unicodedata.normalize' and len(e.args) == 2 \
+                and isinstance(e.args[0], ast.Constant):
+            inner = compile_expr(e.args[1], names)
+            form = e.args[0].value
+            return None if inner is None else (lambda env: unicodedata.normalize(form, inner(env)))
+        if isinstance(e, ast.Call) and isinstance(e.func, ast.Name) and e.func.id == 'str' and len(e.args) == 1:
+            return compile_expr(e.args[0], names)
+        return None
+    names = {start}
+    for st_ in ast.walk(f.node):
+        if isinstance(st_, ast.Assign) and len(st_.targets) == 1 and isinstance(st_.targets[0], ast.Name):
+            tgt = st_.targets[0].id
+            uses = {n.id for n in ast.walk(st_.value) if isinstance(n, ast.Name)}
+            if uses & names and (tgt in names or tgt == result):
+                fn_ = compile_expr(st_.value, names)
+                if fn_ is None:
+                    raise AnalysisError(f'{f.qualname}: the string transformation `{norm(st_.value)[:70]}` is outside what the '
+                                        f'resolver emulation understands')
+                steps.append((st_.lineno, tgt, fn_))
+                names.add(tgt)
+    steps.sort(key=lambda x: x[0])
+
+    def run(text: str) -> str:
+        env = {start: text}
+        for _ln, tgt, fn_ in steps:
+            env[tgt] = fn_(env)
+        return env[result or start]
+    return run, len(steps)
+
+
 def check_aliases(prog: Program, rep, rule: str) -> None:
     umod = prog.module(C.M_UNIT)
     table = _read_alias_table(prog)
@@ -558,8 +630,17 @@ def check_aliases(prog: Program, rep, rule: str) -> None:
         raise AnalysisError('_parse_value: no regex with a unit group')
     rx = re.compile(split_pat)
 
+    pu_f = prog.func(C.M_UNIT, '_parse_unit')
+    norm_unit, n_steps = _str_pipeline(pu_f, pu_f.positional[0])
+    if n_steps == 0:
+        raise AnalysisError('_parse_unit: no normalisation of the input string found')
+    res_names = [n.targets[0].id for n in ast.walk(pv.node) if isinstance(n, ast.Assign) and isinstance(n.targets[0], ast.Name)
+                 and any(isinstance(c, ast.Call) and isinstance(c.func, ast.Attribute) and c.func.attr == 'replace'
+                         for c in ast.walk(n.value))]
+    norm_value, _n2 = _str_pipeline(pv, pv.positional[0], res_names[0]) if res_names else ((lambda t: t.replace(' ', '')), 0)
+
     def resolve(text: str) -> Optional[str]:
-        s = text.strip().lower()
+        s = norm_unit(text)
         if s in slots:
             return f'<preferred:{s}>'
         if shape['enum_by_name'] and s in members:
@@ -609,7 +690,7 @@ def check_aliases(prog: Program, rep, rule: str) -> None:
         for a in names:
             if shape['blank_delete'] and ' ' in a:
                 bad_blank.append((a, u, ln))
-            m = rx.match('1' + a.replace(' ', ''))
+            m = rx.match(norm_value('1 ' + a))
             if not m or m.groups()[0] != '1' or resolve(m.groups()[1]) != u:
                 bad_num.append((a, u, ln))
     bad_num = [x for x in bad_num if x not in bad_blank]
